@@ -717,6 +717,13 @@ def compare_core(ctx, fl, f, ans, where):
     return n
 
 
+def _reads_garbage_int(pt, ct):
+    import re
+    extra = ct[len(pt):]
+    nums = [int(x) for x in re.findall(r"-?\d+", extra)]
+    return any(abs(n) > 10 ** 6 for n in nums) or (bool(nums) and all(n not in range(0, 1000) for n in nums))
+
+
 def classify(feat, dump_feat, py, cy):
     """stable class of a failing case, from the function's features first.  The known classes all have the
     shape 'CPython raises the unbound error here, the compiled code reads NULL or carries on'."""
@@ -736,6 +743,10 @@ def classify(feat, dump_feat, py, cy):
         pt, ct = py[2][1:-1], cy[2][1:-1]
         continued = (cy[0] != "CRASH" and ct.startswith(pt) and
                      (len(ct) > len(pt) or cy[0] not in unbound))
+        if "int_consts" in feat and continued and _reads_garbage_int(pt, ct):
+            # the compiled code carried on past the read and logged an integer that is not one of the program's
+            # values: an uninitialised C long (a local inferred as C long is never unbound-checked)
+            return "int_literal_local_inferred_c_long_unchecked"
         if "del_in_try" in feat and (cy[0] in ("CRASH", "SystemError") or continued):
             return "del_in_try_no_exception_edge"
         if "int_consts" in feat and continued:
